@@ -60,15 +60,15 @@ type Prod struct {
 // S' -> start. Terminal symbols are those of cfgref (0 = @error, 1.. tokens);
 // the end marker is the action-map key EOFKey.
 type Table struct {
-	C       *cfgref.CFG
-	Prods   []Prod
-	States  []*State
-	Unres   []string // unresolved conflicts (state, terminal, actions)
-	OutDom  []string // situations the documented rule does not define (mixed prec among shift prods, mixed assoc on one level)
-	first   []uint64
-	null    []bool
-	byLHS   map[int][]int
-	sprime  int
+	C      *cfgref.CFG
+	Prods  []Prod
+	States []*State
+	Unres  []string // unresolved conflicts (state, terminal, actions)
+	OutDom []string // situations the documented rule does not define (mixed prec among shift prods, mixed assoc on one level)
+	first  []uint64
+	null   []bool
+	byLHS  map[int][]int
+	sprime int
 }
 
 func (t *Table) HasConflicts() bool { return len(t.Unres) > 0 }
